@@ -4,7 +4,7 @@ CONSTANTS
     ValLen <- TValLen
     PageSize = 4096
     TrunkCap = 1020
-    Quirks = {"sep_chain", "cursor_empty_leaf", "range_excl_empty"}
+    Quirks = {}
 INIT TInit
 NEXT TNext
 INVARIANTS Obs_Point Obs_Scan Obs_Ledger
